@@ -4,6 +4,14 @@ Three comparisons per case:
   spec   : an independent tree evaluator (Python ints) on the generated parse tree          -> property oracle
   real   : dissect.cstruct.expression.Expression(cs, text).evaluate(ctx), twice              -> implementation
   model  : the Lean driver's `expr` command (tokenizer, minus rewriting, shunting-yard)       -> correspondence
+
+History probe (kind "history"): ONE Expression object is evaluated 2..5 times (up to 8 in the thorough tier) with a
+varying context -- None, {}, contexts that bind (shadow) some or all identifiers, the same context again -- and with
+`cs.consts` redefined between evaluations; the constants bind every identifier at the start, so context-free
+evaluations succeed (about a fifth of the histories leave one identifier unbound at first, so that the history starts
+with a failed evaluation).  After every step the value is compared with what a fresh Expression object gives for that
+context and those constants, and with the independent tree evaluator.  The first two steps of every history are also
+sent to the model's `expr` command (a None context is sent as the empty one).
 """
 from __future__ import annotations
 
@@ -81,7 +89,10 @@ def lit(rnd, v, form, suffix):
     return s + suffix
 
 
-def gen_tree(rnd: random.Random, d: int, idents):
+SMALL_VALUES = [0, 1, 2, 3, 4, 5, 7, 8, 9, 10, 15, 16, 63, 64, 100, 255, 256, 4095]
+
+
+def gen_tree(rnd: random.Random, d: int, idents, values=None):
     k = rnd.random()
     if d == 0 or k < 0.28:
         r = rnd.random()
@@ -89,12 +100,12 @@ def gen_tree(rnd: random.Random, d: int, idents):
             return ("id", rnd.choice(idents))
         if r < 0.32:
             return ("sizeof", rnd.choice(list(TYPES)))
-        v = rnd.choice([0, 1, 2, 3, 4, 5, 7, 8, 9, 10, 15, 16, 63, 64, 100, 255, 256, 4095, 65535, 2**31, 2**64 - 1, rnd.randrange(1 << 20)])
+        v = rnd.choice(values or [0, 1, 2, 3, 4, 5, 7, 8, 9, 10, 15, 16, 63, 64, 100, 255, 256, 4095, 65535, 2**31, 2**64 - 1, rnd.randrange(1 << 20)])
         return ("num", v, rnd.choice(LIT_FORMS), rnd.choice(SUFFIXES))
     if k < 0.45:
-        return ("un", rnd.choice("-~"), gen_tree(rnd, d - 1, idents))
+        return ("un", rnd.choice("-~"), gen_tree(rnd, d - 1, idents, values))
     op = rnd.choice(list(BIN))
-    return ("bin", op, gen_tree(rnd, d - 1, idents), gen_tree(rnd, d - 1, idents))
+    return ("bin", op, gen_tree(rnd, d - 1, idents, values), gen_tree(rnd, d - 1, idents, values))
 
 
 def render(rnd, t, need, extra_paren=0.1, spaces=True):
@@ -194,6 +205,93 @@ def parse_driver(ans):
     return r(s[1]), r(s[2]), [str(t) for t in s[3]]
 
 
+# ------------------------------------------------------------------------------------------------ evaluation histories
+
+HIST_VALUES = [0, 1, 2, 3, 5, 8, 13, 64, 255, 1000, -1, -7]
+
+
+def gen_history_case(rnd: random.Random, tier: str):
+    """-> (tree, text, steps); step = {"ctx": dict | None, "consts": dict} -- the constants in force at that step.
+    The tree mentions at least one identifier."""
+    for _ in range(30):
+        idents = rnd.sample(IDENTS, rnd.randint(1, 3))
+        t = gen_tree(rnd, rnd.randint(1, 4), idents, SMALL_VALUES)   # small literals: a history evaluates its text ~10 times
+        if idents_of(t, set()):
+            break
+    else:
+        t = ("bin", "+", ("bin", "*", ("id", "A"), ("num", 2, "d", "")), ("id", "B"))
+    ids = sorted(idents_of(t, set()))
+    text = render(rnd, t, 0, rnd.choice([0.0, 0.1, 0.3]))
+    consts = {i: rnd.choice(HIST_VALUES) for i in ids}
+    unbound = None
+    if rnd.random() < 0.2:
+        unbound = rnd.choice(ids)        # the context-free evaluation fails until the constant is defined / the context binds it
+        del consts[unbound]
+    n = rnd.randint(2, 5 if tier == "quick" else 8)
+    first_empty = rnd.random() < 0.65
+    steps, prev = [], None
+    for k in range(n):
+        if k and rnd.random() < 0.3:
+            consts = dict(consts)
+            r = rnd.random()
+            i = rnd.choice(ids)
+            if r < 0.7 or i not in consts:
+                consts[i] = consts.get(i, 0) + rnd.choice([1, 3, 100, -2])   # a constant is redefined (or defined at last)
+            elif len(consts) > 1 or unbound is not None:
+                del consts[i]                                                # ... or undefined
+        r = rnd.random()
+        if k == 0 and first_empty:
+            ctx = None if r < 0.5 else {}
+        elif r < 0.12:
+            ctx = None
+        elif r < 0.24:
+            ctx = {}
+        elif r < 0.36 and prev is not None:
+            ctx = None if prev is None else dict(prev)                       # the same context again
+        elif r < 0.5:
+            ctx = {i: rnd.choice(HIST_VALUES) for i in ids}                  # every identifier shadowed
+        else:
+            sub = rnd.sample(ids, rnd.randint(1, len(ids)))
+            ctx = {i: consts.get(i, 0) + rnd.choice([1, 2, 7, -3]) for i in sub}   # some identifiers shadowed, differently from the constant
+            if rnd.random() < 0.3:
+                ctx["zz"] = 9                                                # a field the expression does not mention
+        steps.append({"ctx": ctx, "consts": dict(consts)})
+        prev = ctx
+    return t, text, steps
+
+
+def run_history(real, text, steps):
+    """evaluate ONE Expression object along the history -> [(got, fresh)] with r = ('ok', v) | ('err', cls)"""
+    out = []
+    try:
+        real.cs.consts = dict(steps[0]["consts"])
+        shared = real.Expression(real.cs, text)
+    except Exception as ex:  # noqa: BLE001
+        return [(("err", common.exc_class(ex)), None)]
+    for st in steps:
+        ctx = None if st["ctx"] is None else dict(st["ctx"])
+        try:
+            real.cs.consts = dict(st["consts"])
+            fresh = ("ok", int(real.Expression(real.cs, text).evaluate(None if ctx is None else dict(ctx))))
+        except Exception as ex:  # noqa: BLE001
+            fresh = ("err", common.exc_class(ex))
+        try:
+            real.cs.consts = dict(st["consts"])
+            got = ("ok", int(shared.evaluate(ctx)))
+        except Exception as ex:  # noqa: BLE001
+            got = ("err", common.exc_class(ex))
+        out.append((got, fresh))
+    return out
+
+
+def history_repro(text, steps):
+    lines = ["from dissect.cstruct import cstruct; from dissect.cstruct.expression import Expression; cs=cstruct(); "
+             "cs.load('struct S { uint32 a; uint64 b; };'); " + f"cs.consts={steps[0]['consts']!r}; e=Expression(cs,{text!r})"]
+    for st in steps:
+        lines.append(f"cs.consts={st['consts']!r}; print(e.evaluate({st['ctx']!r}), Expression(cs,{text!r}).evaluate({st['ctx']!r}))")
+    return "; ".join(lines)
+
+
 # ------------------------------------------------------------------------------------------------ findings
 
 def sig_F2(case) -> bool:
@@ -265,8 +363,10 @@ def run(env) -> Result:
     res.rule = ("cases: (pairs) every ordered pair of binary operators with unary operands; (literal) every literal form x suffix; "
                 "(random) seeded random trees of depth<=5 rendered with random blanks and redundant parentheses, identifiers from the context "
                 "and the constants, sizeof(type); (malformed) random token soup. Each case: tree value (independent evaluator) vs real "
-                "Expression.evaluate twice (second time with another context) vs a fresh object vs the Lean model. distinct = by rendered "
-                "text + bindings; non-trivial = at least one operator")
+                "Expression.evaluate twice (second time with another context) vs a fresh object vs the Lean model. (history) one Expression "
+                "object evaluated 2-5 (thorough: 2-8) times with contexts None / {} / shadowing some or all identifiers / repeated, and "
+                "constants redefined, defined or undefined between the evaluations; every step vs a fresh object and vs the tree value. "
+                "distinct = by rendered text + bindings; non-trivial = at least one operator")
     real = Real()
     findings = env["findings"]
     cases, rnd = make_cases(env)
@@ -303,9 +403,21 @@ def run(env) -> Result:
         lines.append(driver_line(text, ctx1, {}, {}))
         metas.append({"kind": "malformed", "text": text, "ctx1": ctx1, "ctx2": {}, "consts": {}, "want1": None, "want2": None,
                       "idents": [], "has_minus": "-" in text, "nontrivial": len(text) > 2})
+    # evaluation histories on one object; the first two steps also go to the model (fresh object evaluated twice)
+    nh = 500 if env["tier"] == "quick" else 8000
+    for _ in range(nh):
+        t, text, steps = gen_history_case(rnd, env["tier"])
+        c0, c1 = steps[0]["ctx"] or {}, steps[1]["ctx"] or {}
+        same_consts = steps[0]["consts"] == steps[1]["consts"]
+        lines.append(driver_line(text, c0, c1 if same_consts else c0, steps[0]["consts"]))
+        metas.append({"kind": "history", "text": text, "tree": t, "steps": steps, "same_consts": same_consts, "ctx1": c0, "ctx2": c1,
+                      "consts": steps[0]["consts"], "idents": sorted(idents_of(t, set())), "has_minus": has_minus(t), "nontrivial": True})
     answers = run_driver(lines) if env["driver_ok"] else [None] * len(lines)
 
     for meta, ans in zip(metas, answers):
+        if meta["kind"] == "history":
+            check_history(real, res, meta, ans, findings)
+            continue
         text, ctx1, ctx2, consts = meta["text"], meta["ctx1"], meta["ctx2"], meta["consts"]
         r1, r2, toks = real.eval2(text, ctx1, ctx2, consts)
         res.count((text, sorted(ctx1.items()), sorted(consts.items())), meta["nontrivial"])
@@ -348,9 +460,76 @@ def run(env) -> Result:
     return res
 
 
+def check_history(real, res, meta, ans, findings):
+    text, steps, t = meta["text"], meta["steps"], meta["tree"]
+    outs = run_history(real, text, steps)
+    res.count((text, repr(steps)), True)
+    res.feat("kind:history")
+    res.feat(f"history:length={len(steps)}")
+    fid = classify(meta, findings)
+    data = {"kind": "history", "text": text,
+            "history": [{"context": st["ctx"], "constants": st["consts"], "same_object": list(o[0]), "fresh_object": list(o[1]) if o[1] else None}
+                        for st, o in zip(steps, outs)],
+            "repro": history_repro(text, steps)}
+    bad = None
+    seen_empty_ok = False
+    for k, (st, (got, fresh)) in enumerate(zip(steps, outs)):
+        if fresh is None:          # the expression does not tokenize: nothing to re-evaluate
+            res.feat("history:rejected-at-construction")
+            break
+        ctx = st["ctx"]
+        envk = dict(st["consts"]); envk.update(ctx or {})
+        try:
+            want = ("ok", ev(t, envk))
+        except (OutOfDomain, KeyError):
+            want = None
+        if k:
+            if seen_empty_ok and ctx and any(i in st["consts"] for i in ctx):
+                res.feat("history:context-shadows-constant-after-context-free-success")
+            if st["consts"] != steps[k - 1]["consts"]:
+                res.feat("history:constants-changed-between-evaluations")
+            if ctx == steps[k - 1]["ctx"]:
+                res.feat("history:same-context-again")
+        if not ctx:
+            res.feat("history:evaluation-with-" + ("None" if ctx is None else "empty-context"))
+            if got[0] == "ok":
+                seen_empty_ok = True
+        if got[0] == "err":
+            res.feat("history:step-raises")
+        if got != fresh:
+            bad = (f"step {k} of {len(steps)}: re-evaluating the same Expression object with context {ctx!r} and constants {st['consts']!r} "
+                   f"gives {got}, a fresh object gives {fresh}" + (f" (the parse tree prescribes {want})" if want else ""))
+        elif want is not None and got != want:
+            bad = f"step {k}: evaluation with context {ctx!r} and constants {st['consts']!r} gives {got}, the parse tree prescribes {want}"
+        if bad:
+            break
+    if bad:
+        if fid:
+            res.known_seen[fid] = res.known_seen.get(fid, 0) + 1
+        else:
+            res.violations.append(Case("property", bad, data))
+    if ans is not None and not bad and len(outs) >= 2:
+        m1, m2, _ = parse_driver(ans)
+        r1, r2 = outs[0][0], outs[1][0]
+        if ("err", "OutOfModel") in (m1, m2):
+            res.feat("model:out-of-modelled-domain (shift count > 4096)")
+        elif m1 != r1 or (m2 != (r2 if meta["same_consts"] else r1)):
+            if fid:
+                res.known_seen.setdefault(fid, 0)
+            else:
+                res.disagreements.append(Case("corr", f"history: model gives {m1},{m2} for the first two steps; implementation gives {r1},{r2}", data))
+    res.sample({"text": text, "history": [[st["ctx"], st["consts"], list(o[0])] for st, o in zip(steps, outs)]}, 9)
+
+
 def replay(body) -> int:
     real = Real()
     c = body["case"]
+    if c.get("kind") == "history":
+        steps = [{"ctx": h["context"], "consts": h["constants"]} for h in c["history"]]
+        for k, (st, (got, fresh)) in enumerate(zip(steps, run_history(real, c["text"], steps))):
+            print(f"replay: step {k}: {c['text']!r} context {st['ctx']!r} constants {st['consts']!r}: same object -> {got}, fresh object -> {fresh}")
+        print("replay:", body.get("what"))
+        return 0
     r = real.eval2(c["text"], c["ctx1"], c["ctx2"], c["consts"])
     print("replay:", c["text"], "->", r, "|", body.get("what"))
     return 0
